@@ -271,6 +271,7 @@ inductive TAns where
   | none               -- `Prop::get` on an absent value
   | val : TV → TAns
   | ok
+  | panic              -- `expect("prop-type has changed …")`, `expect("unreachable")`, `assert!` in `set`
   deriving DecidableEq, Repr
 
 inductive TOp where
@@ -302,6 +303,69 @@ def Props.typedOp (ps : Props) (k : Key) (t : Ty) (op : TOp) : Props × TAns :=
   let (ps1, s) := ps.getRaw k
   let (s', a) := slotOp conv t op s
   (ps1.put k s', a)
+
+/-! ### live handles (`Prop<T, PRESENT>`)
+
+A handle holds the shared slot (`Arc<Mutex<Entry>>`), the type parameter `T` and the const flag
+`PRESENT`; it is NOT re-validated when used: `get`/`map` downcast the stored value with
+`expect("prop-type has changed …")`, a `PRESENT` handle additionally `expect("unreachable")`s a
+value, and `set` asserts that a stored value has type `T` before overwriting. -/
+
+structure Handle where
+  ty : Ty
+  present : Bool
+  deriving DecidableEq, Repr
+
+inductive HOp where
+  | get                -- `Prop::get`
+  | orDefault          -- `Prop<T,false>::or_default()` (handle becomes `PRESENT`), then `get`;
+                       -- on a `PRESENT` handle (no such method): `get`
+  | set (v : TV)       -- `Prop::set(v : T)`
+  | clear              -- `Prop::clear(self)`
+  | drop
+  deriving DecidableEq, Repr
+
+/-- `Prop::get` / `Prop::map` through handle `h` -/
+def handleGet (h : Handle) : Slot → TAns
+  | .some tv => if tv.ty = h.ty then .val tv else .panic
+  | _ => if h.present then .panic else .none
+
+/-- one operation through a live handle: slot afterwards, answer, the handle afterwards
+    (`none`: consumed) -/
+def handleOp (h : Handle) (op : HOp) (s : Slot) : Slot × TAns × Option Handle :=
+  match op with
+  | .get => (s, handleGet h s, some h)
+  | .orDefault =>
+    if h.present then (s, handleGet h s, some h)
+    else
+      let s1 := match s with
+        | .none => Slot.some h.ty.default     -- `or_else`: only `Entry::None` is initialised
+        | s => s
+      let h1 : Handle := { h with present := true }
+      (s1, handleGet h1 s1, some h1)
+  | .set v =>
+    match s with
+    | .some tv => if tv.ty = h.ty then (.some v, .ok, some h) else (s, .panic, some h)
+    | _ => (.some v, .ok, some h)
+  | .clear => (.none, .ok, none)
+  | .drop => (s, .ok, none)
+
+/-- `props.get::<T>(key)`: `get_raw` + `typed`; on success a fresh non-`PRESENT` handle -/
+def Props.openH (ps : Props) (k : Key) (t : Ty) : Props × Except TAns Handle :=
+  let (ps1, s) := ps.getRaw k
+  match typedSlot conv t s with
+  | .error a => (ps1, .error a)
+  | .ok s1 => (ps1.put k s1, .ok { ty := t, present := false })
+
+/-- an operation through a handle on the slot of key `k` (the slot exists: the handle was opened) -/
+def Props.handleOp (ps : Props) (k : Key) (h : Handle) (op : HOp) : Props × TAns × Option Handle :=
+  let s := (ps.find k).getD .none
+  let (s', a, h') := Cfg.handleOp h op s
+  (ps.put k s', a, h')
+
+/-- `prop_raw(key).clear()` -/
+def Props.rawClear (ps : Props) (k : Key) : Props :=
+  (ps.getRaw k).1.put k .none
 
 /-! ### the builder: `include_cfg` and node creation -/
 
